@@ -573,6 +573,76 @@ func genAffinity(r *rng, c genCfg) (*scenario, string) {
 	return sc, extra
 }
 
+// genGens: a general scenario in which some converters are not registered directly but returned by
+// converter generators (user code the library runs, for every named value and typed output present,
+// while it builds the graph); plus generators that return nothing or report an error.
+func genGens(r *rng, c genCfg) *scenario {
+	sc := genScenario(r, c)
+	if err := sc.buildAll(); err != nil {
+		return sc
+	}
+	unique := func(id int) bool {
+		for _, f := range sc.Funcs {
+			if f.ID != id && f.rtype == sc.Funcs[id].rtype {
+				return false
+			}
+		}
+		return true
+	}
+	// labels of vertices likely to be present when the generators run
+	var pool []lab
+	for _, l := range sc.Funcs[0].Ins {
+		if l.Name != "" {
+			pool = append(pool, l)
+		}
+	}
+	for _, o := range sc.Opts {
+		switch o.Kind {
+		case "named", "namedsub":
+			pool = append(pool, lab{Name: o.Name, Ty: o.Ty, Sub: o.Sub})
+		case "typed", "typedsub":
+			pool = append(pool, lab{Ty: o.Ty, Sub: o.Sub})
+		}
+	}
+	for _, f := range sc.Funcs[1:] {
+		pool = append(pool, f.Outs...)
+	}
+	trigger := func() (int, string) {
+		if len(pool) == 0 || r.chance(1, 8) {
+			return r.intn(10), "*"
+		}
+		l := pool[r.intn(len(pool))]
+		if r.chance(1, 3) {
+			return l.Ty, l.Name
+		}
+		return l.Ty, "*"
+	}
+	gid := 0
+	for i, o := range sc.Opts {
+		if (o.Kind == "conv" || o.Kind == "convfunc") && len(o.Fids) == 1 && unique(o.Fids[0]) && r.chance(3, 5) {
+			ty, name := trigger()
+			mode := "ok"
+			if r.chance(1, 12) {
+				mode = "fail"
+			} else if r.chance(1, 12) {
+				mode = "nil"
+			}
+			sc.Opts[i] = optSpecC{Kind: "gen", Vid: gid, Ty: ty, Name: name, Fids: o.Fids, Sub: mode}
+			gid++
+		}
+	}
+	if r.chance(1, 5) {
+		ty, name := trigger()
+		o := optSpecC{Kind: "gen", Vid: gid, Ty: ty, Name: name, Fids: []int{0}, Sub: []string{"nil", "nil", "fail"}[r.intn(3)]}
+		pos := r.intn(len(sc.Opts) + 1)
+		sc.Opts = append(sc.Opts[:pos], append([]optSpecC{o}, sc.Opts[pos:]...)...)
+		if pos < sc.Defaults {
+			sc.Defaults++
+		}
+	}
+	return sc
+}
+
 // genMalformed: a general scenario with one malformed element among the call options.
 func genMalformed(r *rng, c genCfg) *scenario {
 	sc := genScenario(r, c)
